@@ -398,7 +398,7 @@ def ins_term(ins):
 
 def _nats(txt): return [int(x) for x in re.findall(r'\d+', txt.replace('%nat', ''))]
 
-def eval_cases(ctx, tag, blocks, inputs, per_file=40, jobs=4):
+def eval_cases(ctx, tag, blocks, inputs, per_file=30, jobs=12):
   """for every block: (tr_case_code, tr_diffs on its input vectors), evaluated by Coq (one file per `per_file` blocks)"""
   chunks = [list(range(i, min(i + per_file, len(blocks)))) for i in range(0, len(blocks), per_file)]
   def one(k):
